@@ -227,6 +227,25 @@ bool File::readByteString(ByteString& value)
 		return false;
 	}
 
+	// A length that exceeds what is left in the file cannot be satisfied; do
+	// not try to allocate it (a damaged length field may ask for exabytes)
+#ifndef _WIN32
+	struct stat s;
+
+	if (fstat(fileno(stream), &s) != 0) return false;
+#else
+	struct _stat s;
+
+	if (_fstat(_fileno(stream), &s) != 0) return false;
+#endif
+	long pos = ftell(stream);
+
+	if ((pos < 0) || ((unsigned long) s.st_size < (unsigned long) pos) ||
+	    (len > (unsigned long) s.st_size - (unsigned long) pos))
+	{
+		return false;
+	}
+
 	// Read the byte string from the file
 	value.resize(len);
 
